@@ -48,6 +48,7 @@ def main(argv=None):
                 mod.thorough(chk, repo)
             sweeps.definite_assignment(chk, repo)
             sweeps.py2_dunders(chk, repo)
+            sweeps.py2_api(chk, repo)
             sweeps.format_arity(chk, repo)
             sweeps.purity_inventory(chk, repo)
         rc = chk.finish()
